@@ -839,6 +839,13 @@ class Spec:
     def glom(self, target, **kw):
         scope = dict(self.scope)
         scope.update(kw.get('scope', {}))
+        if LAST_CHILD_SCOPE in scope or CHILD_ERRORS in scope:
+            # the scope of a running glom call was handed over (e.g. scope=S): its
+            # flattened copy is the root of a new evaluation, whose error bookkeeping
+            # starts afresh instead of sharing / mimicking the running call's
+            scope[CHILD_ERRORS] = []
+            for key in (LAST_CHILD_SCOPE, CUR_ERROR, NO_PYFRAME):
+                scope.pop(key, None)
         kw['scope'] = ChainMap(scope)
         glom_ = scope.get(glom, glom)
         return glom_(target, self.spec, **kw)
